@@ -438,3 +438,14 @@ end Agd.Config
 #print axioms Agd.Tie.TrC20.subnetKey_panics_iff
 #print axioms Agd.Tie.TrC20.missing_reported
 #print axioms Agd.Tie.TrC20.rateLimit_names_ipv4
+#print axioms Agd.Tie.TrC20.wrap_add
+#print axioms Agd.Tie.TrC20.fold_mod
+#print axioms Agd.Tie.TrC20.streamAddrNum_eq
+#print axioms Agd.Tie.TrC20.streamAddrNum_exact
+#print axioms Agd.Tie.TrC20.genGroups_noNil
+#print axioms Agd.Tie.TrC20.streamTotal_gen
+#print axioms Agd.Tie.TrC20.streamN_small
+#print axioms Agd.Tie.TrC20.streamN_tr
+#print axioms Agd.Tie.TrC20.validateConnLimit_panics_iff
+#print axioms Agd.Tie.TrC20.validateConnLimit_accepts
+#print axioms Agd.Tie.TrC20.validateConnLimit_tr
